@@ -6,7 +6,7 @@
 (* state is printed once (history, observable projection, violated         *)
 (* predicates) so that the harness can replay it on the implementation.    *)
 (***************************************************************************)
-EXTENDS PulserProps, Json
+EXTENDS PulserRender, Json
 
 Init ==
   /\ \E d \in 1..Len(Devs) : s = ReplayFrom(Init0(d), InitCalls, 1)
@@ -28,10 +28,14 @@ Spec == Init /\ [][Next]_vars
 Obs(st) ==
   [st EXCEPT !.ch = [i \in 1..Len(st.ch) |->
       [nm |-> st.ch[i].nm, cid |-> st.ch[i].cid, sl |-> st.ch[i].sl, eb |-> st.ch[i].eb,
-       wt |-> st.ch[i].wt, mp |-> st.ch[i].mp,
+       wt |-> st.ch[i].wt, mp |-> st.ch[i].mp, wq |-> st.ch[i].wq,
        du |-> ChanDur(st.ch[i]), df |-> ChanDurFall(CfgOf(st, i), st.ch[i])]]]
 
 Emit == PrintT("ST|" \o ToJson([h |-> hist, s |-> Obs(s), v |-> viol]))
+
+(* the same with the reference rendering of the state (C06 / C05 / C14) *)
+EmitR == PrintT("ST|" \o ToJson([h |-> hist, s |-> Obs(s), v |-> viol, r |-> Render(s)]))
+RenderInv == RenderWellFormed(s)
 
 (* state invariants that TLC itself enforces on the mirrored model *)
 TilingInv == Tiling(s)
